@@ -17,6 +17,17 @@ package listz
 // nothing about any node that existed before has changed
 //@ spec nodesUnchanged() bool = forall x in oldrefs(DNode): x.next == old(x.next) && x.prev == old(x.prev) && x.list == old(x.list)
 
+// ---- DList as a SEQUENCE (proof group [seq], on top of the local ring shape). Ghost field seq holds the ring from the
+// sentinel: seq[0] is the sentinel, seq[1..len] the nodes front to back; every member node carries its position pos,
+// and a node is a member iff its owner pointer says so, in which case seq[pos] is that node (handles = positions).
+//@ ghostfield DList.seq seq
+//@ ghostfield DNode.pos
+//@ spec dpos(p int) int = cast(DNode, p).pos
+//@ spec dSeq(l ref) bool = l != nil && l.len >= 0 && l.root.next != nil && l.seq[0] == l.root && l.root.pos == 0 && (forall k in 1..l.len+1: l.seq[k] != nil && l.seq[k] != l.root && allocated(l.seq[k]) && cast(DNode, l.seq[k]).list == l && dpos(l.seq[k]) == k) && (forall k in 0..l.len: cast(DNode, l.seq[k]).next == l.seq[k+1] && cast(DNode, l.seq[k+1]).prev == l.seq[k]) && cast(DNode, l.seq[l.len]).next == l.root && l.root.prev == l.seq[l.len] && (forall e in refs(DNode): (e != nil && e.list == l) ==> (1 <= e.pos && e.pos <= l.len && l.seq[e.pos] == e))
+
+//@ spec dNone(l ref) bool = forall e in refs(DNode): e == nil || e.list != l
+//@ spec dInv(l ref) bool = l != nil && (l.root.next == nil ==> (l.len == 0 && dNone(l))) && (l.root.next != nil ==> dSeq(l))
+
 //@ func DNode.Next
 //@   noalloc
 //@   requires e != nil
@@ -32,6 +43,12 @@ package listz
 //@   requires l != nil
 //@   modifies l.root.next, l.root.prev, l.len
 //@   ensures result == l && l.root.next == l.root && l.root.prev == l.root && l.len == 0
+//@   requires[seq] dNone(l)
+//@   modifies[seq] l.seq, l.root.pos
+//@   ensures[seq] dSeq(l)
+//@   at end:
+//@     ghost[seq] l.seq = store(l.seq, 0, l.root)
+//@     ghost[seq] l.root.pos = 0
 
 //@ func NewDoubly
 //@   ensures fresh(result) && result.root.next == result.root && result.root.prev == result.root && result.len == 0 && result.root.list == nil
@@ -57,6 +74,9 @@ package listz
 //@   ensures wf(l) && l.root.next != nil && l.len == old(l.len)
 //@   ensures old(l.root.next) != nil ==> (l.root.next == old(l.root.next) && l.root.prev == old(l.root.prev))
 //@   ensures old(l.root.next) == nil ==> (l.root.next == l.root && l.root.prev == l.root)
+//@   requires[seq] dInv(l)
+//@   modifies[seq] l.seq, l.root.pos
+//@   ensures[seq] dSeq(l) && (old(l.root.next) != nil ==> forall k in 0..l.len+1: l.seq[k] == old(l.seq[k]))
 
 // the splice primitives: exact pointer-level effect, invariant preserved, nothing else touched (frame)
 //@ func DList.insert
@@ -65,12 +85,26 @@ package listz
 //@   modifies e.prev, e.next, e.list, at.next, at.next.prev, l.len
 //@   ensures result == e && e.prev == at && e.next == old(at.next) && at.next == e && old(at.next).prev == e && e.list == l && l.len == old(l.len) + 1
 //@   ensures wf(l)
+//@   ghost[seq] p = at.pos
+//@   ghost[seq] s0 = l.seq
+//@   requires[seq] dSeq(l)
+//@   modifies[seq] l.seq, anyof(DNode.pos)
+//@   ensures[seq] dSeq(l) && e.pos == p + 1 && forall k in 0..l.len+1: l.seq[k] == ite(k <= p, s0[k], ite(k == p + 1, e, s0[k-1]))
+//@   at end:
+//@     ghost[seq] all DNode.pos = seqdef x: ite(cast(DNode, x).list == l && dpos(x) > p, dpos(x) + 1, dpos(x))
+//@     ghost[seq] e.pos = p + 1
+//@     ghost[seq] l.seq = seqdef k: ite(k <= p, s0[k], ite(k == p + 1, e, s0[k-1]))
 
 //@ func DList.insertValue
 //@   requires wf(l) && l.root.next != nil && placeOK(l, at) && l.len < 9223372036854775807
 //@   modifies at.next, at.next.prev, l.len
 //@   ensures fresh(result) && result.Value == v && result.prev == at && result.next == old(at.next) && at.next == result && old(at.next).prev == result && result.list == l && l.len == old(l.len) + 1
 //@   ensures wf(l)
+//@   ghost[seq] p = at.pos
+//@   ghost[seq] s0 = l.seq
+//@   requires[seq] dSeq(l)
+//@   modifies[seq] l.seq, anyof(DNode.pos)
+//@   ensures[seq] dSeq(l) && result.pos == p + 1 && forall k in 0..l.len+1: l.seq[k] == ite(k <= p, s0[k], ite(k == p + 1, result, s0[k-1]))
 
 //@ func DList.remove
 //@   noalloc
@@ -79,6 +113,15 @@ package listz
 //@   ensures e.next == nil && e.prev == nil && e.list == nil && l.len == old(l.len) - 1
 //@   ensures (old(e.prev) != e && old(e.next) != e) ==> (old(e.prev).next == old(e.next) && old(e.next).prev == old(e.prev))
 //@   ensures wf(l)
+//@   ghost[seq] p = e.pos
+//@   ghost[seq] s0 = l.seq
+//@   requires[seq] dSeq(l)
+//@   modifies[seq] l.seq, anyof(DNode.pos)
+//@   ensures[seq] dSeq(l) && forall k in 0..l.len+1: l.seq[k] == ite(k < p, s0[k], s0[k+1])
+//@   at end:
+//@     ghost[seq] all DNode.pos = seqdef x: ite(old(cast(DNode, x).list) == l && dpos(x) > p, dpos(x) - 1, dpos(x))
+//@     ghost[seq] e.pos = 0
+//@     ghost[seq] l.seq = seqdef k: ite(k < p, s0[k], s0[k+1])
 
 //@ func DList.move
 //@   noalloc
@@ -88,6 +131,19 @@ package listz
 //@   ensures e == at ==> nodesUnchanged()
 //@   ensures e != at ==> (e.prev == at && at.next == e && e.next == ite(old(at.next) == e, old(e.next), old(at.next)) && e.next.prev == e)
 //@   ensures (e != at && old(e.prev) != at && old(e.prev) != e && old(e.next) != e) ==> (old(e.prev).next == old(e.next) && old(e.next).prev == ite(old(e.next) == old(at.next), e, old(e.prev)))
+//@   ghost[seq] pe = e.pos
+//@   ghost[seq] pa = at.pos
+//@   ghost[seq] s0 = l.seq
+//@   requires[seq] dSeq(l)
+//@   modifies[seq] l.seq, anyof(DNode.pos)
+//@   ensures[seq] dSeq(l)
+//@   ensures[seq] (e == at || pa == pe - 1) ==> forall k in 0..l.len+1: l.seq[k] == s0[k]
+//@   ensures[seq] pa < pe - 1 ==> forall k in 0..l.len+1: l.seq[k] == ite(k <= pa, s0[k], ite(k == pa + 1, e, ite(k <= pe, s0[k-1], s0[k])))
+//@   ensures[seq] pa > pe ==> forall k in 0..l.len+1: l.seq[k] == ite(k < pe, s0[k], ite(k < pa, s0[k+1], ite(k == pa, e, s0[k])))
+//@   at end:
+//@     ghost[seq] all DNode.pos = seqdef x: ite(cast(DNode, x).list != l || x == e || e == at, dpos(x), ite(pa < pe, ite(pa < dpos(x) && dpos(x) < pe, dpos(x) + 1, dpos(x)), ite(pe < dpos(x) && dpos(x) <= pa, dpos(x) - 1, dpos(x))))
+//@     ghost[seq] e.pos = ite(e == at, pe, ite(pa < pe, pa + 1, pa))
+//@     ghost[seq] l.seq = ite(e == at, s0, ite(pa < pe, seqdef k: ite(k <= pa, s0[k], ite(k == pa + 1, e, ite(k <= pe, s0[k-1], s0[k]))), seqdef k: ite(k < pe, s0[k], ite(k < pa, s0[k+1], ite(k == pa, e, s0[k])))))
 
 // ---- public operations: ownership checks make stale and foreign nodes no-ops ----
 //@ func DList.Remove
